@@ -214,6 +214,13 @@ func vfCorpusScan(minSize, maxSize int64) []vfCorpusCand {
 			if len(o.Attrs) > 0 {
 				feat["attributes"] = true
 				readable = true
+				// the datatype class of attribute values (variable-length values are resolved
+				// through another structure, the global heap, when they are read)
+				for _, a := range o.Attrs {
+					if i := strings.IndexByte(a.Type, '/'); i > 0 {
+						feat["attribute-"+a.Type[:i]] = true
+					}
+				}
 			}
 		}
 		if !readable {
